@@ -73,3 +73,12 @@
 ;@specfn ordRow : (Array Int Int) Int Int -> Real
 ;@specfn appRawS : Stream Real Int -> Stream
 (define-fun appRawS ((s Stream) (o Real) (n Int)) Stream (appRaw s o n))
+; node cache (cache.Cache): cachemap[c][k] = the node object held under key
+; content k, or 0.  ckeyOf(n): content order of the key node n is cached under.
+;@ghost cachemap (Array Int (Array Real Int))
+(declare-fun ckeyOf (Int) Real)
+;@specfn ckeyOf : Int -> Real
+; iterator cursors (ghost): validity and current key/value content order
+;@ghost itvalid (Array Int Bool)
+;@ghost itkey (Array Int Real)
+;@ghost itval (Array Int Real)
